@@ -10,6 +10,7 @@
 #include "hwmc.h"
 #include "univ.h"
 #include "canon.h"
+#include "ops.h"
 #include <ctype.h>
 
 static const unsigned long FLAGBITS[6] = { HWLOC_OBJ_SNPRINTF_FLAG_OLD_VERBOSE, HWLOC_OBJ_SNPRINTF_FLAG_LONG_NAMES, HWLOC_OBJ_SNPRINTF_FLAG_SHORT_NAMES,
@@ -179,6 +180,48 @@ int main(int argc, char **argv)
     for (unsigned k = 0; k < n; k++, idx++) { if (!mc_mine(idx) || mc_deadline()) continue; one_object(t, objs[k], SYN[i]); }
     if (mc_mine(idx++)) level_texts(t, SYN[i]);
     free(objs); hwloc_topology_destroy(t);
+  }
+  /* Groups inserted by the user into existing levels: every state one or two Group insertions away from the small roots with
+   * Group levels (Group depth attributes are renumbered by the insertion; all objects of one level must still print the
+   * same text and that text must parse back to the level - seeded change C11-group-depth-skip) */
+  {
+    struct opscope sc; memset(&sc, 0, sizeof(sc)); sc.classes = OPC_GROUP; sc.lean = 1;
+    int nroots = univ_small_count();
+    for (int r = 0; r < nroots; r++) {
+      struct hist h0; memset(&h0, 0, sizeof(h0)); h0.root = r; h0.cfg = 1;
+      hwloc_topology_t t0 = hist_build(&h0); if (!t0) continue;
+      struct op *ops; int nops = ops_enumerate(t0, &sc, &ops);
+      hwloc_topology_destroy(t0);
+      struct strset seen; strset_init(&seen);
+      for (int i = 0; i < nops && !mc_deadline(); i++, idx++) {
+        if (!mc_mine(idx)) continue;
+        struct hist h1 = h0; h1.ops[h1.n++] = ops[i];
+        hwloc_topology_t t1 = NULL;
+        if (MC_TRY(30000)) { t1 = hist_build(&h1); mc_try_end(); }
+        if (mc_fault[0] || !t1) { mc_fault[0] = 0; mc_clear_san(); continue; }
+        char *key = canon_str(t1, CANON_STRUCT); int fresh = strset_add(&seen, key, strlen(key)); free(key);
+        if (fresh) {
+          static struct sb hb; if (!hb.s) sb_init(&hb); sb_reset(&hb); hist_print(&hb, &h1);
+          level_texts(t1, hb.s);
+          for (hwloc_obj_t g = hwloc_get_next_obj_by_type(t1, HWLOC_OBJ_GROUP, NULL); g; g = hwloc_get_next_obj_by_type(t1, HWLOC_OBJ_GROUP, g)) one_object(t1, g, hb.s);
+          /* a second insertion on top of the first (lean alphabet of the new state) */
+          struct op *ops2; int nops2 = ops_enumerate(t1, &sc, &ops2);
+          for (int j = 0; j < nops2 && j < 40 && !mc_deadline(); j++) {
+            struct hist h2 = h1; h2.ops[h2.n++] = ops2[j];
+            hwloc_topology_t t2 = NULL;
+            if (MC_TRY(30000)) { t2 = hist_build(&h2); mc_try_end(); }
+            if (mc_fault[0] || !t2) { mc_fault[0] = 0; mc_clear_san(); continue; }
+            char *k2 = canon_str(t2, CANON_STRUCT); int fresh2 = strset_add(&seen, k2, strlen(k2)); free(k2);
+            if (fresh2) { sb_reset(&hb); hist_print(&hb, &h2); level_texts(t2, hb.s); mc_count("group_states_depth2", 1); }
+            hwloc_topology_destroy(t2);
+          }
+          free(ops2);
+          mc_count("group_states_depth1", 1);
+        }
+        hwloc_topology_destroy(t1);
+      }
+      free(ops); strset_free(&seen);
+    }
   }
   /* hwloc_type_sscanf on arbitrary strings */
   {
